@@ -100,7 +100,8 @@ def matrix(repo, names, props, tier="quick"):
             print(f"{n}: patch does not apply: {o[-200:]}", flush=True)
             continue
         row = {}
-        for p in props:
+        own = json.load(open(os.path.join(d, "meta.json")))["property"]
+        for p in ([own] if props == ["own"] else props):
             pr = subprocess.run(f"./check {p} {tier}", cwd=VERIF, shell=True, executable="/bin/bash", stdout=subprocess.PIPE, stderr=subprocess.STDOUT, text=True, env=env)
             sig = [l.strip() for l in pr.stdout.splitlines() if l.strip().startswith("signature:")]
             row[p] = {"rc": pr.returncode, "sig": sig[0][:160] if sig else ""}
@@ -114,4 +115,6 @@ if __name__ == "__main__" and sys.argv[1] == "matrix":
     repo = sys.argv[2]
     names = sys.argv[3].split(",") if sys.argv[3] != "all" else sorted(os.listdir(SEEDED))
     props = sys.argv[4].split(",") if len(sys.argv) > 4 and sys.argv[4] != "all" else [f"C{i:02d}" for i in range(1, 21)]
+    if len(sys.argv) > 4 and sys.argv[4] == "own":
+        props = ["own"]
     matrix(repo, names, props, sys.argv[5] if len(sys.argv) > 5 else "quick")
